@@ -78,7 +78,8 @@ def spec__value_to_blackbird(v, tdm):
     if isinstance(v, np.generic):
         v = v.item()                                               # NumPy scalars print as the plain Python number
     if isinstance(v, complex):
-        return "{}{}{}j".format(v.real, "+-"[int(v.imag < 0)], abs(v.imag))
+        # C09: the sign character is the sign BIT of the imaginary part, so that negative zero survives
+        return "{}{}{}j".format(v.real, "+-"[int(np.signbit(v.imag))], abs(v.imag))
     return "{}".format(v)
 
 
@@ -86,7 +87,7 @@ def spec_numpy_to_blackbird(A, var_name):
     if np.issubdtype(A.dtype, np.complexfloating):
         script = ["complex array {}[{}, {}] =".format(var_name, *A.shape)]
         for row in A:
-            row_str = "    " + ", ".join(["{0}{1}{2}j".format(n.real, "+-"[int(n.imag < 0)], abs(n.imag)) for n in row])
+            row_str = "    " + ", ".join(["{0}{1}{2}j".format(n.real, "+-"[int(np.signbit(n.imag))], abs(n.imag)) for n in row])
             script.append(row_str)
     elif np.issubdtype(A.dtype, np.integer):
         script = ["int array {}[{}, {}] =".format(var_name, *A.shape)]
